@@ -174,7 +174,7 @@ class Driver(object):
         return '(([%s]%%N) ++ repeat %d%%N (N.to_nat %d%%N))' % (
             ';'.join(str(ord(c)) for c in t[:len(t) - k]), ord(t[-1]), k)
 
-    def case_roundtrip(self, body, props, fmax, dribble=False):
+    def case_roundtrip(self, body, props, fmax, dribble=False, hops=1, via='pde'):
         from pamqp import specification as spec
         from harness import vconn, vrt
         op = Opaque()
@@ -184,22 +184,35 @@ class Driver(object):
         exp = dict(props)
         exp.setdefault('content_encoding', 'utf-8')     # publish's documented default (C04)
         wanted = sorted((PROPS.index(k), self.norm(v)) for k, v in exp.items())
-        cin = ('{| ri_body := %s; ri_text := %s; ri_props := %s; ri_fmax := %d%%N |}' % (
+        cin = ('{| ri_body := %s; ri_text := %s; ri_props := %s; ri_fmax := %d%%N; ri_rawmode := %s |}' % (
             self.compact(raw_body),
             ('(Some %s)' % self.compact_text(body)) if as_text else 'None',
-            coq_list(['(%d%%N, %s)' % (i, to_pv(v, op)) for i, v in wanted]), fmax))
+            coq_list(['(%d%%N, %s)' % (i, to_pv(v, op)) for i, v in wanted]), fmax,
+            coq_bool(via.endswith('_raw'))))
         bad = ('{| ro_ok := false; ro_raw := []; ro_decoded := PNone; ro_props := []; '
                'ro_frames := []; ro_extra := 0%nat |}')
         meta = dict(kind='roundtrip', body=repr(body)[:60], props=repr(props)[:200], fmax=fmax,
-                    dribble=dribble)
+                    dribble=dribble, hops=hops, via=via)
         try:
             rt, br, conn = vconn.open_connection(dict(frame_max=fmax))
             pub = conn.channel(rpc_timeout=2)
             con = conn.channel(rpc_timeout=2)
             got = []
-            con.basic.consume(got.append, 'q', consumer_tag='rt')
+
+            class Done(Exception):
+                pass
+
+            def on_message(msg):
+                got.append(msg)
+                if len(got) < hops:
+                    # the application forwards what it received, as it received it
+                    msg.publish('rk%d' % len(got))
+                elif via.startswith('start'):
+                    raise Done()
+            con.basic.consume(on_message, 'q', consumer_tag='rt')
             sizes = []
             stash = {}
+            later = []
 
             def on_body(b, ch, fr):
                 sizes.append(len(fr.value))
@@ -207,6 +220,8 @@ class Driver(object):
                 return False
 
             def on_header(b, ch, fr):
+                del sizes[:]                 # the frames of the last hop are the ones observed
+                stash['bodies'] = []
                 stash['header'] = fr
                 return False
 
@@ -219,30 +234,47 @@ class Driver(object):
                     for fr in out:
                         b.send(con.channel_id, fr)
                 else:
-                    stash['later'] = out
+                    later.extend(out)
             br.handlers['ContentBody'] = on_body
             br.handlers['ContentHeader'] = on_header
             br.handlers['@published'] = forward
             pub.basic.publish(body, 'rk', properties=dict(props))
             vconn.settle(rt, 3)
-            later = list(stash.get('later', []))
-            if later:
+            if dribble:
                 # one frame per read: each sleep of the consuming call lets exactly one more
                 # frame arrive, so the consumer looks at every partial state of the queue
                 def feeder():
                     if later:
                         br.send(con.channel_id, later.pop(0))
                 rt.idle_hooks.insert(0, feeder)
-            con.process_data_events()
+            raw = via.endswith('_raw')
+            try:
+                for _ in range(hops * 12 if dribble else hops):
+                    if via == 'pde':
+                        con.process_data_events()
+                    elif via == 'pde_raw':
+                        con.process_data_events(auto_decode=False)
+                    elif via == 'start':
+                        con.start_consuming()
+                    elif via == 'start_raw':
+                        con.start_consuming(auto_decode=False)
+                    elif via == 'bim_raw':
+                        for msg in con.build_inbound_messages(break_on_empty=True, auto_decode=False):
+                            on_message(msg)
+                    vconn.settle(rt, 2)
+                    if len(got) >= hops:
+                        break
+            except Done:
+                pass
             vconn.settle(rt, 2)
             extra = len(con._inbound)
-            if len(got) != 1 or br.parse_error is not None or br.violations:
+            if len(got) != hops or br.parse_error is not None or br.violations:
                 # also: everything the publisher wrote must have been well-formed frames the
                 # broker expected (an empty body frame after a complete body is neither)
                 meta['broker'] = repr((br.parse_error, br.violations))[:300]
                 cobs = bad
             else:
-                m = got[0]
+                m = got[-1]
                 recv = sorted((PROPS.index(k), self.norm(v)) for k, v in m._properties.items()
                               if k in PROPS and v not in (None, '', b'') or k in props)
                 cobs = ('{| ro_ok := true; ro_raw := %s; ro_decoded := %s; ro_props := %s; '
@@ -408,6 +440,18 @@ class Driver(object):
                 rnd.choice(['v', b'v', 'é'.encode(), b'\xff', 5, None, 1.5])))
         for _ in range(60 if tier == 'quick' else 600):
             out.append(self.case_roundtrip(*self.gen_roundtrip(rnd), dribble=rnd.random() < 0.35))
+        # every consume path, raw mode, and messages forwarded with Message.publish()
+        vias = ['pde', 'start', 'pde_raw', 'start_raw', 'bim_raw']
+        for ce in ['utf-16-le', 'binary', 'gzip', 'ascii', 'latin-1', 'utf-8']:
+            for via in ('pde', 'start_raw'):
+                out.append(self.case_roundtrip('héllo wörld 雪'.encode('utf-8'),
+                                               {'content_encoding': ce, 'message_id': 'é'}, 4096,
+                                               hops=2, via=via))
+        for via in vias:
+            out.append(self.case_roundtrip('plain text', {'content_type': 'text/plain'}, 4096, via=via))
+        for _ in range(40 if tier == 'quick' else 400):
+            out.append(self.case_roundtrip(*self.gen_roundtrip(rnd), dribble=rnd.random() < 0.25,
+                                           hops=rnd.choice([1, 2, 2, 3]), via=rnd.choice(vias)))
         return out
 
     def replay_cases(self, doc):
